@@ -689,96 +689,14 @@ func ruleT9(c *Ctx) []Ob {
 	// is nil and uint32(len) elsewhere (two returns, or one return with the count merged by a phi)
 	if fn := sp.Func("appendListHeader"); fn != nil {
 		ei := analyseEmits(fn)
-		pparam := fn.Params[2]
-		firstWordNil := func(b *ssa.BasicBlock, wantNil bool) bool { // dominated by (first word of *p) ==/!= nil
-			for _, cd := range domConds(b) {
-				bo, ok := cd.V.(*ssa.BinOp)
-				if !ok || !(isNilConst(bo.X) || isNilConst(bo.Y)) {
-					continue
-				}
-				x := bo.X
-				if isNilConst(bo.X) {
-					x = bo.Y
-				}
-				ld := loadOf(x)
-				isFirst := false
-				if ld != nil && isUnsafePointer(ld.T) && ld.Ptr == ssa.Value(pparam) {
-					isFirst = true // *(*unsafe.Pointer)(p)
-				}
-				if _, typ, f, ok := fieldOf(x); ok && typ == "sliceHeader" && f == "Data" {
-					isFirst = true // (*sliceHeader)(p).Data
-				}
-				if !isFirst {
-					continue
-				}
-				isNil := bo.Op == token.EQL && cd.Truth || bo.Op == token.NEQ && !cd.Truth
-				if isNil == wantNil {
-					return true
-				}
-			}
-			return false
-		}
-		isLen := func(v ssa.Value) bool {
-			cv, ok := v.(*ssa.Convert)
-			return ok && strings.HasSuffix(path(cv.X), ".Len") && namedOf(fieldRecvType(cv.X)) == "sliceHeader"
-		}
 		n, sawLive := 0, false
 		for _, e := range ei.events {
 			if e.Kind != "bytes" || e.N != 5 {
 				continue
 			}
 			n++
-			tb, isConv := typeByteSrc(e.Srcs[0])
-			good := isConv && path(tb) == fn.Params[0].Name()+".WT"
-			why := "type byte is not t.WT"
-			allZero := true
-			for _, sv := range e.Srcs[1:] {
-				if z, ok := constInt(sv); !ok || z != 0 {
-					allZero = false
-				}
-			}
-			if allZero {
-				if !firstWordNil(e.Instr.Block(), true) {
-					good, why = false, "a zero count is written where the slice is not known to be nil"
-				}
-			} else {
-				var base ssa.Value
-				for i, sv := range e.Srcs[1:] {
-					x, kk, ok := shiftOf(sv)
-					if !ok || kk != int64(8*(3-i)) || (base != nil && x != base) {
-						good, why = false, "count bytes are not n>>24, n>>16, n>>8, n of one value"
-						break
-					}
-					base = x
-				}
-				if good {
-					switch b0 := base.(type) {
-					case *ssa.Phi:
-						for k, ed := range b0.Edges {
-							pred := b0.Block().Preds[k]
-							if z, ok := constInt(ed); ok && z == 0 {
-								// zero only on the nil path
-								if !firstWordNil(pred, true) && !predOnNilEdge(pred, b0.Block(), firstWordNil) {
-									good, why = false, "count 0 reaches the header on a path where the slice is not nil"
-								}
-							} else if isLen(ed) {
-								sawLive = true
-								if in, ok := ed.(ssa.Instruction); ok && !firstWordNil(in.Block(), false) {
-									good, why = false, "length is read without testing the slice for nil"
-								}
-							} else {
-								good, why = false, "count is neither 0 nor uint32(len)"
-							}
-						}
-					default:
-						if isLen(base) {
-							sawLive = true
-						} else {
-							good, why = false, "count is not uint32(len) of the slice"
-						}
-					}
-				}
-			}
+			good, why, live, _ := listHeaderEvent(e, fn.Params[0].Name(), fn.Params[2])
+			sawLive = sawLive || live
 			s.check(good, "appendListHeader:header", c.InstrPos(e.Instr), "[t.WT, count big-endian]; count = 0 for nil, uint32(len) otherwise", "list header: "+why)
 		}
 		if n == 0 || !sawLive {
@@ -796,40 +714,7 @@ func ruleT9(c *Ctx) []Ob {
 				continue
 			}
 			n++
-			t := fn.Params[0].Name()
-			k0, ok0 := typeByteSrc(e.Srcs[0])
-			v0, ok1 := typeByteSrc(e.Srcs[1])
-			good := ok0 && ok1 && path(k0) == t+".K.WT" && path(v0) == t+".V.WT"
-			var base ssa.Value
-			for i, sv := range e.Srcs[2:] {
-				x, kk, ok := shiftOf(sv)
-				if !ok || kk != int64(8*(3-i)) || (base != nil && x != base) {
-					good = false
-					break
-				}
-				base = x
-			}
-			// n is phi(0, uint32(maplen(*p)))
-			if good {
-				okN := false
-				if ph, ok := base.(*ssa.Phi); ok {
-					z, m := false, false
-					for _, ed := range ph.Edges {
-						if v, ok := constInt(ed); ok && v == 0 {
-							z = true
-						}
-						if cv, ok := ed.(*ssa.Convert); ok {
-							if call, ok := cv.X.(*ssa.Call); ok {
-								if f := call.Call.StaticCallee(); f != nil && f.Name() == "maplen" {
-									m = true
-								}
-							}
-						}
-					}
-					okN = z && m
-				}
-				good = okN
-			}
+			good, _ := mapHeaderEvent(e, fn.Params[0].Name())
 			s.check(good, "appendMapHeader", c.InstrPos(e.Instr), "[t.K.WT, t.V.WT, n>>24, n>>16, n>>8, n], n = maplen or 0 for nil", "map header is not [K.WT, V.WT, big-endian live count]")
 		}
 		if n != 1 {
@@ -838,7 +723,173 @@ func ruleT9(c *Ctx) []Ob {
 	} else {
 		s.bad("appendMapHeader", "-", "not found")
 	}
+	// (5) the same headers written out in a list / map routine instead of through the helpers
+	regs, _ := c.registrations()
+	routines := map[*ssa.Function]bool{}
+	for _, r := range regs {
+		routines[r.fn] = true
+	}
+	for _, g := range []string{"appendMapAnyAny", "appendListAny"} {
+		if f := sp.Func(g); f != nil {
+			routines[f] = true
+		}
+	}
+	var rfns []*ssa.Function
+	for f := range routines {
+		rfns = append(rfns, f)
+	}
+	sort.Slice(rfns, func(i, j int) bool { return rfns[i].Name() < rfns[j].Name() })
+	for _, f := range rfns {
+		if len(f.Params) != 3 || f.Blocks == nil {
+			continue
+		}
+		ei := analyseEmits(f)
+		for _, e := range ei.events {
+			if e.Kind != "bytes" || len(e.Srcs) == 0 {
+				continue
+			}
+			if _, isType := typeByteSrc(e.Srcs[0]); !isType {
+				continue
+			}
+			switch e.N {
+			case 5:
+				good, why, _, _ := listHeaderEvent(e, f.Params[0].Name()+".V", f.Params[2])
+				s.check(good, f.Name()+":inline-list-header", c.InstrPos(e.Instr), "[t.V.WT, count big-endian]; count = 0 for nil, uint32(len) otherwise", "list header written out in the routine: "+why)
+			case 6:
+				good, _ := mapHeaderEvent(e, f.Params[0].Name())
+				s.check(good, f.Name()+":inline-map-header", c.InstrPos(e.Instr), "[t.K.WT, t.V.WT, n>>24, n>>16, n>>8, n], n = maplen or 0 for nil", "map header written out in the routine is not [K.WT, V.WT, big-endian live count]")
+			}
+		}
+	}
 	return s.obs
+}
+
+// listHeaderEvent checks one five-byte emission as a list header: [desc.WT, count big-endian] where the count is 0 exactly
+// where the slice's first word is nil and uint32(len) elsewhere. It returns the count value of a live header.
+func listHeaderEvent(e *Emit, descPath string, pparam ssa.Value) (good bool, why string, live bool, count ssa.Value) {
+	firstWordNil := func(b *ssa.BasicBlock, wantNil bool) bool { // dominated by (first word of *p) ==/!= nil
+		for _, cd := range domConds(b) {
+			bo, ok := cd.V.(*ssa.BinOp)
+			if !ok || !(isNilConst(bo.X) || isNilConst(bo.Y)) {
+				continue
+			}
+			x := bo.X
+			if isNilConst(bo.X) {
+				x = bo.Y
+			}
+			ld := loadOf(x)
+			isFirst := false
+			if ld != nil && isUnsafePointer(ld.T) && ld.Ptr == pparam {
+				isFirst = true // *(*unsafe.Pointer)(p)
+			}
+			if _, typ, f, ok := fieldOf(x); ok && typ == "sliceHeader" && f == "Data" {
+				isFirst = true // (*sliceHeader)(p).Data
+			}
+			if !isFirst {
+				continue
+			}
+			isNil := bo.Op == token.EQL && cd.Truth || bo.Op == token.NEQ && !cd.Truth
+			if isNil == wantNil {
+				return true
+			}
+		}
+		return false
+	}
+	isLen := func(v ssa.Value) bool {
+		cv, ok := v.(*ssa.Convert)
+		return ok && strings.HasSuffix(path(cv.X), ".Len") && namedOf(fieldRecvType(cv.X)) == "sliceHeader"
+	}
+	tb, isConv := typeByteSrc(e.Srcs[0])
+	good = isConv && path(tb) == descPath+".WT"
+	why = "type byte is not " + descPath + ".WT"
+	allZero := true
+	for _, sv := range e.Srcs[1:] {
+		if z, ok := constInt(sv); !ok || z != 0 {
+			allZero = false
+		}
+	}
+	if allZero {
+		if !firstWordNil(e.Instr.Block(), true) {
+			good, why = false, "a zero count is written where the slice is not known to be nil"
+		}
+		return
+	}
+	var base ssa.Value
+	for i, sv := range e.Srcs[1:] {
+		x, kk, ok := shiftOf(sv)
+		if !ok || kk != int64(8*(3-i)) || (base != nil && x != base) {
+			good, why = false, "count bytes are not n>>24, n>>16, n>>8, n of one value"
+			return
+		}
+		base = x
+	}
+	count = base
+	if !good {
+		return
+	}
+	switch b0 := base.(type) {
+	case *ssa.Phi:
+		for k, ed := range b0.Edges {
+			pred := b0.Block().Preds[k]
+			if z, ok := constInt(ed); ok && z == 0 {
+				// zero only on the nil path
+				if !firstWordNil(pred, true) && !predOnNilEdge(pred, b0.Block(), firstWordNil) {
+					good, why = false, "count 0 reaches the header on a path where the slice is not nil"
+				}
+			} else if isLen(ed) {
+				live = true
+				if in, ok := ed.(ssa.Instruction); ok && !firstWordNil(in.Block(), false) {
+					good, why = false, "length is read without testing the slice for nil"
+				}
+			} else {
+				good, why = false, "count is neither 0 nor uint32(len)"
+			}
+		}
+	default:
+		if isLen(base) {
+			live = true
+		} else {
+			good, why = false, "count is not uint32(len) of the slice"
+		}
+	}
+	return
+}
+
+// mapHeaderEvent checks one six-byte emission as a map header: [t.K.WT, t.V.WT, n big-endian] with n = phi(0, uint32(maplen)).
+func mapHeaderEvent(e *Emit, t string) (good bool, count ssa.Value) {
+	k0, ok0 := typeByteSrc(e.Srcs[0])
+	v0, ok1 := typeByteSrc(e.Srcs[1])
+	good = ok0 && ok1 && path(k0) == t+".K.WT" && path(v0) == t+".V.WT"
+	var base ssa.Value
+	for i, sv := range e.Srcs[2:] {
+		x, kk, ok := shiftOf(sv)
+		if !ok || kk != int64(8*(3-i)) || (base != nil && x != base) {
+			return false, nil
+		}
+		base = x
+	}
+	count = base
+	if !good {
+		return
+	}
+	okN := false
+	if ph, ok := base.(*ssa.Phi); ok {
+		z, m := false, false
+		for _, ed := range ph.Edges {
+			if v, ok := constInt(ed); ok && v == 0 {
+				z = true
+			}
+			if cv, ok := ed.(*ssa.Convert); ok {
+				if call, ok := cv.X.(*ssa.Call); ok {
+					if f := call.Call.StaticCallee(); f != nil && f.Name() == "maplen" {
+						m = true
+					}
+				}
+			}
+		}
+		okN = z && m
+	}
+	return okN, count
 }
 
 // typeByteSrc matches byte(x) where x has the named type ttype and returns x.
